@@ -650,6 +650,21 @@ void reb_simulation_init(struct reb_simulation* r){
 }
 
 
+// The timestep is about to change: a pending half step has to be completed with the old timestep.
+// keep_unsynchronized (synchronize then restores the unsynchronized internal state) cannot be honoured here.
+static void reb_simulation_synchronize_before_dt_change(struct reb_simulation* const r){
+    const unsigned int keep_whfast = r->ri_whfast.keep_unsynchronized;
+    const unsigned int keep_saba = r->ri_saba.keep_unsynchronized;
+    const unsigned int keep_whfast512 = r->ri_whfast512.keep_unsynchronized;
+    r->ri_whfast.keep_unsynchronized = 0;
+    r->ri_saba.keep_unsynchronized = 0;
+    r->ri_whfast512.keep_unsynchronized = 0;
+    reb_simulation_synchronize(r);
+    r->ri_whfast.keep_unsynchronized = keep_whfast;
+    r->ri_saba.keep_unsynchronized = keep_saba;
+    r->ri_whfast512.keep_unsynchronized = keep_whfast512;
+}
+
 int reb_check_exit(struct reb_simulation* const r, const double tmax, double* last_full_dt){
     if(r->status <= REB_STATUS_SINGLE_STEP){
         if(r->status == REB_STATUS_SINGLE_STEP){
@@ -690,12 +705,12 @@ int reb_check_exit(struct reb_simulation* const r, const double tmax, double* la
                         r->status = REB_STATUS_SUCCESS;
                     }else{
                         // not there yet, do another step.
-                        reb_simulation_synchronize(r);
+                        reb_simulation_synchronize_before_dt_change(r);
                         r->dt = tmax-r->t;
                     }
                 }else{
                     r->status = REB_STATUS_LAST_STEP; // Do one small step, then exit.
-                    reb_simulation_synchronize(r);
+                    reb_simulation_synchronize_before_dt_change(r);
                     if (r->dt_last_done!=0.){   // If first timestep is also last, do not use dt_last_done (which would be 0.)
                         *last_full_dt = r->dt_last_done; // store last full dt before decreasing the timestep to match finish time
                     }
@@ -805,7 +820,7 @@ static void* reb_simulation_integrate_raw(void* args){
         int dt_sign = (thread_info->tmax > r->t) ? 1.0 : -1.0; // determine integration direction
         if (copysign(1., r->dt) != dt_sign){
             // Direction is reversed: complete any pending half step with the old timestep first.
-            reb_simulation_synchronize(r);
+            reb_simulation_synchronize_before_dt_change(r);
         }
         r->dt = copysign(r->dt, dt_sign);
     }
@@ -884,6 +899,9 @@ static void* reb_simulation_integrate_raw(void* args){
     }
     reb_simulation_synchronize(r);
     if(r->exact_finish_time==1){ // if finish_time = 1, r->dt could have been shrunk, so set to the last full timestep
+        if (r->dt != last_full_dt){
+            reb_simulation_synchronize_before_dt_change(r);
+        }
         r->dt = last_full_dt; 
     }
     if (r->simulationarchive_filename){ reb_simulationarchive_heartbeat(r);}
